@@ -3,7 +3,7 @@
    theorem is therefore proved relative to the solutions that keep every such instructor teaching (Solution.s_keep), which is
    the full statement for instances outside TC (C02_noTC); C02_refuted exhibits the defect on the faithful model. *)
 From Coq Require Import List ZArith Lia Bool Arith.
-Require Import HP1 Cao1 Cao3 Cao5 Score1 Cov1 Rooms Spec SpecProofs Valid Node NodeThms NodeWf Solve C02Engine C02Full.
+Require Import HP1 Cao1 Cao3 Cao5 Score1 Cov1 Rooms Spec SpecProofs Valid Node NodeThms NodeWf Solve C02Engine C02Full NoOverflow.
 Require EngP2.
 Import ListNotations.
 Open Scope nat_scope.
@@ -47,6 +47,19 @@ Proof.
   - intros c _ Hc. apply (HK c Hc).
 Qed.
 
+(* the Overflow hypothesis discharged (HP7, NoOverflow): it suffices that the matching matrix is small enough for i32 labels,
+   SizeOK: (n + 2) * WEIGHT_OFFSET <= i32::MAX with n = course places + skippable participants (n <= 42947 for WEIGHT_OFFSET 50000) *)
+Theorem C02_sized : forall courses parts esize shrinkf smin smax k st,
+  Valid courses parts -> in_tc courses parts = false -> SizeOK courses parts ->
+  (forall a, (score_of courses parts a <= smax)%Z) ->
+  SReach courses parts esize shrinkf None smin smax k st -> 0 < k -> final st ->
+  forall K a, HardOK_K courses parts K a -> (forall c, K c = true -> c < nc courses /\ c_fixed (crs courses c) = false) ->
+  EngP2.best node assignment st <> None /\ (score_of courses parts a <= EngP2.bscore node assignment st)%Z.
+Proof.
+  intros courses parts esize shrinkf smin smax k st V Htc Hs. apply (C02_noTC courses parts esize shrinkf smin smax k st V Htc).
+  intros nd. apply (run_full_no_overflow courses parts V esize shrinkf None nd Hs).
+Qed.
+
 (* the defect D2 on the faithful model: a valid instance of class TC that has a hard-feasible assignment (cancel course 0, its
    instructor attends the fixed course 1) on which the search ends without solution for every worker count and interleaving *)
 Definition d2_courses := [ {| c_min := 0; c_max := 1; c_instr := [1]; c_fixed := false |}; {| c_min := 1; c_max := 3; c_instr := []; c_fixed := true |} ].
@@ -73,7 +86,8 @@ Proof.
     rewrite Forall_forall in Hs. destruct (Hs nd Hin) as [-> | ->]; congruence.
 Qed.
 
-Check C02_partial. Check C02_noTC. Check C02_refuted.
+Check C02_partial. Check C02_noTC. Check C02_sized. Check C02_refuted.
 Print Assumptions C02_partial.
 Print Assumptions C02_noTC.
+Print Assumptions C02_sized.
 Print Assumptions C02_refuted.
